@@ -45,7 +45,7 @@ def st_recipe(draw, spec):
             continue
         names = [f["n"] for f in ms["fields"]]
         r = {"model": ms["name"]}
-        choice = draw(st.sampled_from(["style", "map", "as_list", "omit_default", "mixed", "nested"]))
+        choice = draw(st.sampled_from(["style", "map", "as_list", "omit_default", "omit_default", "mixed", "nested"]))
         if choice in ("style", "mixed"):
             r["name_style"] = draw(st.sampled_from([s.name for s in NameStyle]))
         if choice in ("map", "mixed") and names:
